@@ -22,6 +22,8 @@ OBLIGATIONS = {
                ('o13_1_ikey_successor_1', 'qt'), ('o13_1_ikey_successor_2', 'qt')]),
     'O14.1': ('Bloom filter answers true for every key it was created from (also when read by a policy with another bits_per_key)',
               [('o14_1_bloom_b10_l1_l4', 'qt'), ('o14_1_bloom_b1_l0_l3', 'qt'), ('o14_1_bloom_reader_other_bits', 'qt'), ('o14_1_bloom_b64_l1_l0', 'qt'), ('o14_1_bloom_b45_l0_l1', 't'), ('o14_1_bloom_b64_l5_l1', 't'), ('o14_1_bloom_b9_l4_l4', 't'), ('o14_1_bloom_b43_l3_l5', '')]),
+    'O13.4': ('a block of two entries written by the real BlockBuilder (restart interval 1) and parsed by the real BlockReader: seek lands on the first entry >= target, one step moves to the neighbour',
+              [('o13_4_block_small_r1_bwd', 't'), ('o13_4_block_cursor_r1_fwd', 't')]),
     'O15.1': ('unmask(mask(x)) = x for every u32', [('o15_1_crc_mask_roundtrip', 'qt')]),
     'O15.3': ('parsers never panic on arbitrary bytes',
               [('o15_3_parse_block_record_9', 'qt'), ('o15_3_parse_block_record_6', 'qt'), ('o15_3_parse_footer_48', 'qt'), ('o15_3_parse_footer_47', 't'),
